@@ -207,10 +207,22 @@ func run(c *harness.Case) {
 	for lookups < targetLookups {
 		// 0..6 mutations
 		nm := R.Intn(7)
+		bias := []int{25, 55, 85}[R.Intn(3)] // shrinking, steady or growing block
 		for m := 0; m < nm; m++ {
 			k := universe[R.Intn(len(universe))]
-			switch x := R.Intn(10); {
-			case x < 5:
+			x := 98
+			if R.Intn(100) < 97 {
+				x = 60
+				if R.Intn(100) < bias {
+					x = 0
+				}
+			}
+			if x >= 55 && x < 97 && len(model) > 0 && R.Intn(10) < 7 {
+				mem := members(model)
+				k = mem[R.Intn(len(mem))] // remove a current member most of the time
+			}
+			switch {
+			case x < 55:
 				serial++
 				if pendingRemoved[k] {
 					removedThenReinserted++
@@ -220,7 +232,7 @@ func run(c *harness.Case) {
 				model[k] = serial
 				ops = append(ops, fmt.Sprintf("insert %s v%d", k, serial))
 				c.Count("inserts", 1)
-			case x < 9:
+			case x < 97:
 				if _, in := model[k]; in {
 					pendingRemoved[k] = true
 					c.Count("removes_member", 1)
@@ -247,6 +259,7 @@ func run(c *harness.Case) {
 		}
 		mem := members(model)
 		sizes[len(mem)] = true
+		c.Distinct("member_set_size", len(mem))
 		if len(pendingRemoved) > 0 {
 			sweeps++
 		}
